@@ -405,6 +405,10 @@ pub enum Profile {
     /// table (`largest_center_to_vertex_distances_with_radius` directly, or narrow cone queries at
     /// well separated depths), some arriving late.
     Ranges,
+    /// Systematic sweep over depth PAIRS: scenario number `i` first-uses the `i mod 465`-th
+    /// unordered pair (d1 <= d2) of depths from 2..=6 threads with light ops on both tables, in
+    /// both orders.  Catches defects that need one specific pair of depths.
+    Pairs,
 }
 
 pub fn n_hash(d: u8) -> u64 {
@@ -435,8 +439,43 @@ fn gen_pos(rng: &mut Rng) -> (f64, f64) {
     (lon, lat)
 }
 
+/// A cone radius whose coverage recursion starts exactly at depth `s`
+/// (`best_starting_depth(r) == s`: the largest `s` with `r < 0.841 / 2^s`).
+pub fn radius_for_root_depth(rng: &mut Rng, s: u8) -> f64 {
+    0.8410686705685088 / (1u64 << s) as f64 * rng.uniform(0.55, 0.95)
+}
+
+/// Root depth to aim a coverage query of working depth `d` at: a depth from `pool` when it is
+/// within reach (not more than `max_up` levels above `d`: the cell count explodes otherwise;
+/// any number of levels BELOW is fine: a tiny cone whose root layer is deeper than its result).
+fn pick_root_depth(rng: &mut Rng, d: u8, pool: &[u8], max_up: u8) -> Option<u8> {
+    let cands: Vec<u8> = pool.iter().copied().filter(|s| *s + max_up >= d).collect();
+    if cands.is_empty() { None } else { Some(cands[rng.below(cands.len() as u64) as usize]) }
+}
+
 /// Generate one op of kind index `k` at depth `d`.
 fn gen_op(rng: &mut Rng, k: usize, d: u8, light: bool) -> Op {
+    gen_op_pool(rng, k, d, light, &[])
+}
+
+/// As [`gen_op`]; coverage ops aim their root depth at one of the depths in `pool` one time in
+/// four, so that the query's first touch of its ROOT layer collides with another thread's first
+/// use of that very depth (including roots deeper than the working depth: tiny cones).
+fn gen_op_pool(rng: &mut Rng, k: usize, d: u8, light: bool, pool: &[u8]) -> Op {
+    if !pool.is_empty() && matches!(OP_KINDS[k], "K" | "Kc" | "E" | "Ec") && rng.chance(1, 4) {
+        if let Some(s) = pick_root_depth(rng, d, pool, if light { 2 } else { 3 }) {
+            let (lon, lat) = gen_pos(rng);
+            let lat = lat.max(-1.5).min(1.5);
+            let r = radius_for_root_depth(rng, s);
+            let dd = if d >= 29 { 0 } else { rng.range(1, 2).min((29 - d) as u64) as u8 };
+            return match OP_KINDS[k] {
+                "K" => Op::K { d, lon, lat, r },
+                "Kc" => Op::Kc { d, dd, lon, lat, r },
+                "E" => Op::E { d, lon, lat, a: r, b: r * rng.uniform(0.3, 1.0), pa: rng.uniform(0.0, std::f64::consts::PI) },
+                _ => Op::Ec { d, dd, lon, lat, a: r, b: r * rng.uniform(0.3, 1.0), pa: rng.uniform(0.0, std::f64::consts::PI) },
+            };
+        }
+    }
     let (lon, lat) = gen_pos(rng);
     let cs = cell_size(d);
     let big = if light { 2.5 } else { 8.0 };
@@ -587,6 +626,49 @@ fn generate_cover(seed: u64) -> Scenario {
     Scenario { threads, faults }
 }
 
+/// The `k`-th unordered pair (d1 <= d2) of depths, k in 0..465.
+pub fn depth_pair(k: u64) -> (u8, u8) {
+    let mut k = k % 465;
+    for d1 in 0..30u64 {
+        let n = 30 - d1;
+        if k < n {
+            return (d1 as u8, (d1 + k) as u8);
+        }
+        k -= n;
+    }
+    (0, 0)
+}
+
+/// Pair-sweep scenarios (see [`Profile::Pairs`]).
+fn generate_pairs(seed: u64, index: u64) -> Scenario {
+    let mut rng = Rng::new(seed);
+    let (d1, d2) = depth_pair(index);
+    let n_threads = match rng.below(10) { 0..=5 => 2, 6..=7 => 3, 8 => 4, _ => 6 } as usize;
+    // light first-use ops: L H G N B R V W
+    let light_kinds = [0usize, 1, 2, 3, 9, 10, 11, 16];
+    let mut threads = Vec::with_capacity(n_threads);
+    for ti in 0..n_threads {
+        let n_ops = rng.range(1, 3) as usize;
+        let mut ops = Vec::with_capacity(n_ops);
+        // even threads go d1 then d2, odd threads the reverse
+        for oi in 0..n_ops {
+            let first = if ti % 2 == 0 { d1 } else { d2 };
+            let second = if ti % 2 == 0 { d2 } else { d1 };
+            let d = if oi == 0 { first } else if oi == 1 { second } else if rng.chance(1, 2) { d1 } else { d2 };
+            let k = light_kinds[rng.below(light_kinds.len() as u64) as usize];
+            ops.push(gen_op(&mut rng, k, d, true));
+        }
+        let late = ti > 0 && rng.chance(1, 5);
+        threads.push(ThreadSpec { start: if late { Start::Late } else { Start::Line }, ops });
+    }
+    let mut faults = Vec::new();
+    if rng.chance(1, 2) {
+        let ti = rng.below(n_threads as u64) as u8;
+        faults.push(Fault::Stall { thread: ti, at_event: rng.range(1, 8) as u32, steps: rng.range(1, 30) as u32 });
+    }
+    Scenario { threads, faults }
+}
+
 /// Range-centred scenarios (see [`Profile::Ranges`]).
 fn generate_ranges(seed: u64) -> Scenario {
     let mut rng = Rng::new(seed);
@@ -659,7 +741,18 @@ fn generate_crash(seed: u64) -> Scenario {
     Scenario { threads, faults }
 }
 
+/// Like [`generate`], for profiles whose scenario depends on its index in the batch.
+pub fn generate_indexed(seed: u64, index: u64, profile: Profile) -> Scenario {
+    if profile == Profile::Pairs {
+        return generate_pairs(seed, index);
+    }
+    generate(seed, profile)
+}
+
 pub fn generate(seed: u64, profile: Profile) -> Scenario {
+    if profile == Profile::Pairs {
+        return generate_pairs(seed, seed);
+    }
     if profile == Profile::Cover {
         return generate_cover(seed);
     }
@@ -674,7 +767,7 @@ pub fn generate(seed: u64, profile: Profile) -> Scenario {
         Profile::Full => (6u64, 4u64, false),
         Profile::Light => (5, 2, true),
         Profile::Tiny => (4, 1, true),
-        Profile::Cover | Profile::Crash | Profile::Ranges => unreachable!(),
+        Profile::Cover | Profile::Crash | Profile::Ranges | Profile::Pairs => unreachable!(),
     };
     // thread count: biased to small
     let n_threads = match rng.below(10) {
@@ -717,7 +810,7 @@ pub fn generate(seed: u64, profile: Profile) -> Scenario {
                 let zk = 12 + rng.below(3) as usize;
                 ops.push(gen_op(&mut rng, zk, d, light));
             } else {
-                ops.push(gen_op(&mut rng, k, d, light));
+                ops.push(gen_op_pool(&mut rng, k, d, light, &pool));
             }
         }
         // late joiner: never thread 0 (at least one line thread), at most half the threads
@@ -781,7 +874,7 @@ mod tests {
     use super::*;
     #[test]
     fn roundtrip() {
-        for p in [Profile::Full, Profile::Light, Profile::Tiny, Profile::Cover, Profile::Crash, Profile::Ranges] {
+        for p in [Profile::Full, Profile::Light, Profile::Tiny, Profile::Cover, Profile::Crash, Profile::Ranges, Profile::Pairs] {
             for s in 0..2000u64 {
                 let sc = generate(derive_seed(1, 2, s), p);
                 let txt = encode(&sc);
